@@ -126,12 +126,17 @@ func parseScenario(f []string) (sc scenario, ok bool) {
 			for _, ss := range strings.Split(cs, "+") {
 				var srv []int
 				for _, as := range strings.Split(ss, ",") {
-					a := addrIndex(as)
-					if a < 0 || seen[a] {
-						return sc, false
+					idx := []int{addrIndex(as)}
+					if as == "r0" {
+						idx = []int{rng0, rng1} // the port range: both sockets, next to each other
 					}
-					seen[a] = true
-					srv = append(srv, a)
+					for _, a := range idx {
+						if a < 0 || seen[a] {
+							return sc, false
+						}
+						seen[a] = true
+						srv = append(srv, a)
+					}
 				}
 				c.servers = append(c.servers, srv)
 			}
@@ -196,8 +201,14 @@ func cfgString(c cfgSpec) string {
 	var parts []string
 	for _, srv := range c.servers {
 		var as []string
-		for _, a := range srv {
-			as = append(as, addrNames[a])
+		for j, a := range srv {
+			switch {
+			case a == rng0 && j+1 < len(srv) && srv[j+1] == rng1:
+				as = append(as, "r0")
+			case a == rng1 && j > 0 && srv[j-1] == rng0:
+			default:
+				as = append(as, addrNames[a])
+			}
 		}
 		parts = append(parts, strings.Join(as, ","))
 	}
@@ -522,6 +533,12 @@ func (r *runner) tags() []string {
 		if len(c.servers) > 1 {
 			set["two-servers"] = true
 		}
+		if strings.Contains(cfgString(c), "r0") {
+			set["port-range"] = true
+			if old.has(rng0) != old.has(rng1) || !strings.Contains(cfgString(old), "r0") && (old.has(rng0) || old.has(rng1)) {
+				set["port-range-meets-single-port"] = true
+			}
+		}
 	}
 	for _, t := range r.sc.toks {
 		set["inflight-"+string(t.rel)] = true
@@ -591,6 +608,28 @@ func splitServers(rng *core.Rand, addrs []int) [][]int {
 	for i := len(addrs) - 1; i > 0; i-- {
 		j := rng.Intn(i + 1)
 		addrs[i], addrs[j] = addrs[j], addrs[i]
+	}
+	// p0 and p1 next to each other are written as one port range: do that most of the time
+	i0, i1 := -1, -1
+	for i, a := range addrs {
+		if a == rng0 {
+			i0 = i
+		}
+		if a == rng1 {
+			i1 = i
+		}
+	}
+	if i0 >= 0 && i1 >= 0 && rng.Chance(3, 4) {
+		rest := make([]int, 0, len(addrs))
+		for _, a := range addrs {
+			if a != rng1 {
+				rest = append(rest, a)
+			}
+			if a == rng0 {
+				rest = append(rest, rng1)
+			}
+		}
+		copy(addrs, rest)
 	}
 	if len(addrs) >= 2 && rng.Chance(1, 3) {
 		cut := 1 + rng.Intn(len(addrs)-1)
@@ -707,7 +746,7 @@ func genScenario(rng *core.Rand, maxCfgs int) scenario {
 func genStorm(rng *core.Rand, n int) string {
 	keep := randSubset(rng, 60, 60)
 	if len(keep) == 0 {
-		keep = []int{0, 4}
+		keep = []int{0, 6}
 	}
 	adm := []int{-1, adm0, adm1}[rng.Intn(3)]
 	var cs []string
@@ -738,6 +777,8 @@ var fixedScenarios = []string{
 	"seq 0 1 t0@m0;t0@m0;!t0@m0;t0@m1;t0;t0@m1 2:t0:s",
 	"seq 0 0 u0@m1;u0@m1;!-@m1;=;u0@m0 -",
 	"seq 0d100 0 t0,t1;t0,t1;t0;t0,u0;t0,u0;t0,u1;t0,u1;!t0,t2;- -",
+	"seq 0d100 1 r0;r0;p0;p1,p0;t0,r0+u0;!r0;p1 1:p1:s;3:p0:t",
+	"seq 0 0 t0,r0,u0;r0,t0;p1;r0 -",
 	"seq 300d100 1 t0+t1;t0+t2;!t0,t1+t2 2:t0:s",
 	"seq 0 2 t0;!t0,t1,u1;t0,u1 1:t0:s",
 	"seq 300 2 t0,t1,u0,u1;t0,u1;=;t0,t1,u0,u1;- 1:t1:r;1:u1:d;5:t0:t",
@@ -749,7 +790,7 @@ var malformed = []string{
 	"", "seq", "seq 0 0 t0 - - extra", "seq x 0 t0 - -", "seq 0 3 t0 - -", "seq 0 0 t9 - -", "seq 0 0 t0,t0 - -",
 	"seq 0 0 = - -", "seq 0 0 !t0 - -", "seq 0 0 t0;t1 1:t1:p -", "seq 0 0 t0;t1 1:t0:q -", "seq 0 0 t0;t1 3:t0:p -",
 	"seq 0 0 t0;t1 2:t1:p -", "seq 0 1 t0;!t0 1:t0:s -", "seq 0 0 t0;= 1:t0:p -", "storm 3", "seq -1 0 t0 - -", "seq 0 0 t0; - -",
-	"seq 0 0 t0+ - -", "seq 00 0 t0 - -", "seq 0 0 t0;t0 01:t0:p -", "seq 0 0 t0@t1 - -", "seq 0 0 m0 - -", "seq 0 0 t0@ - -",
+	"seq 0 0 t0+ - -", "seq 00 0 t0 - -", "seq 0 0 t0;t0 01:t0:p -", "seq 0 0 t0@t1 - -", "seq 0 0 m0 - -", "seq 0 0 r0,p0 - -", "seq 0 0 r1 - -", "seq 0 0 r0;r0 1:r0:p -", "seq 0 0 t0@ - -",
 	"seq 0 0 t0;=@m0 - -", "seq 0 0 t0@m0;t0 1:m0:p -", "seq 0d0 0 t0 - -", "seq 0d 0 t0 - -", "seq d5 0 t0 - -", "seq 0d5d 0 t0 - -", "seq 0d3000 0 t0 - -",
 }
 
